@@ -42,11 +42,12 @@ ASSUMPTIONS = (
     "crash during module generation is C15's business and is not repeated here",
 )
 EXPECTED_PROBES = ("module-file-reloaded-by-later-process", "modtemplate", "mako-render", "get_def-rendered", "non-ascii-source",
-                   "uris-differing-in-punctuation", "nested-def-default-from-context", "modulename_callable", "shadowed-in-second-directory")
+                   "uris-differing-in-punctuation", "nested-def-default-from-context", "modulename_callable", "shadowed-in-second-directory",
+                   "relative-uri-from-two-directories")
 
 ENC = {"utf8": "utf-8", "latin1": "latin-1", "cp1251": "cp1251", "ascii": "ascii"}
 DECO = {"utf8": "grüß€Ж", "latin1": "grüßé", "cp1251": "ЖивоЯ", "ascii": "plain"}
-CTX = {"x": "X1", "y": "<b>&amp;", "dflt": "DF", "z": "Zz", "a1": "A1", "a2": "A2", "a3": "A3", "a4": "A4", "a5": "A5", "e": "",
+CTX = {"x": "X1", "y": "<b>&amp;", "dflt": "DF", "z": "  Zz ", "a1": "A1", "a2": "A2", "a3": " ", "a4": "A4", "a5": "\tA5 ", "e": "",
        "q": "u=v==w&x=1"}
 
 
@@ -62,7 +63,7 @@ def gen_program(rng, k, uri, enc):
     files = {}
     feats = []
     n = rng.randint(2, 7)
-    pool = ["nsattrorder", "nsdefault", "annotations", "expr", "modcode", "pycode", "defdefault", "nesteddefault", "block", "callcontent", "include", "namespace", "nsimport",
+    pool = ["relinclude", "relinclude", "nsattrorder", "nsdefault", "annotations", "expr", "modcode", "pycode", "defdefault", "nesteddefault", "block", "callcontent", "include", "namespace", "nsimport",
             "pageargs", "control", "text", "manynames", "shadow", "capture", "nesteddefault", "defdefault", "nsoverlap", "falsyargs",
             "falsyargs", "nsoverlap"]
     chosen = rng.sample(pool, min(n, len(pool)))
@@ -96,6 +97,15 @@ def gen_program(rng, k, uri, enc):
             names.append(nm)
             defs.append('<%%def name="%s(t=\'T\')">{${t}:${caller.body()}}</%%def>' % nm)
             body.append('<%%call expr="%s()">in ${x}</%%call><%%self:%s t="${z}">via-self</%%self:%s>' % (nm, nm, nm))
+        elif f == "relinclude":
+            # the same relative uri used from two directories: each resolves next to the template that uses it
+            import posixpath
+
+            here = posixpath.dirname(uri).rstrip("/")
+            files["%s/rel%d.html" % (here, k)] = head + "RA%d" % k
+            files["/relB%d/other.html" % k] = head + 'O[<%%include file="rel%d.html"/>]' % k
+            files["/relB%d/rel%d.html" % (k, k)] = head + "RB%d" % k
+            body.append('<%%include file="rel%d.html"/><%%include file="/relB%d/other.html"/><%%include file="rel%d.html"/>' % (k, k, k))
         elif f == "include":
             files["/inc%d_%d.html" % (k, j)] = head + '<%page args="q=\'dq\', r=\'dr\'"/>I(${q}|${r}|${x})'
             body.append('<%%include file="/inc%d_%d.html" args="q=x"/><%%include file="/inc%d_%d.html"/>' % (k, j, k, j))
@@ -170,7 +180,7 @@ def gen_program(rng, k, uri, enc):
         names.append("pd%d" % k)
         body.append("<<pd%d>>${pd%d()}<</pd%d>>" % (k, k, k))
     text += "".join(defs) + "".join(body)
-    return {"uri": uri, "encoding": enc, "text": text, "files": files, "defs": names, "marker": marker, "features": feats,
+    return {"k": k, "uri": uri, "encoding": enc, "text": text, "files": files, "defs": names, "marker": marker, "features": feats,
             "inherit": inherit, "shadow": bool(files) and rng.random() < 0.5,
             "output_encoding": rng.choice((None, None, "utf-8", "utf-16", "utf-8-sig"))}
 
@@ -402,6 +412,16 @@ def execute(trace, root):
                         flag("path-mismatch", "%s: %s on %s gives %s, %s on %s gives %s" % (uri, "render" if other is base else name, rtag,
                                                                                          _short(other), name, tag, _short(r)),
                              "%s~%s" % (ro["path"] + ("" if other is base else ""), o["path"] + ":" + name.split(":")[0]))
+            # relative uris resolve against the directory of the template that uses them
+            if "relinclude" in p["features"]:
+                k_ = p["k"]
+                want_rel = "RA%dO[RB%d]RA%d" % (k_, k_, k_)
+                probe("relative-uri-from-two-directories")
+                for name, r in sorted(o["renders"].items()):
+                    if not name.startswith("get_def:") and r["status"] == "ok" and want_rel not in r["text"]:
+                        flag("path-mismatch", "%s: %s on %s does not contain %r: 'rel%d.html' included from %s and from /relB%d/ must each resolve "
+                             "next to the including template (%s)" % (uri, name, tag, want_rel, k_, uri, k_, _short(r)), "relative-uri")
+                        break
             # a def rendered through get_def(name).render(**ctx) vs the same def called inside the template
             full = o["renders"]["render"]
             if full["status"] == "ok":
